@@ -310,9 +310,11 @@ def evaluate(src):
 # ----------------------------------------------------------------------------------------------- the real engine
 def run_real(src):
     from plasTeX.TeX import TeX
+    from util import time_limit
     t = TeX()
     t.input('\\documentclass{article}\\begin{document}%s\\end{document}' % src)
-    d = t.parse()
+    with time_limit(10):
+        d = t.parse()
     return d.textContent
 
 
